@@ -29,6 +29,7 @@ DEFAULT_WEIGHTS = {
     "PROPFIND": 1,
     "REPORT": 1,
     "RESTART": 2,
+    "RECREATE": 1,
 }
 
 CAL_SLOTS = ["c1", "c1", "c1", "c2", "b1", "n1", "h1", "x1"]
@@ -177,6 +178,12 @@ def program(draw, weights=None, min_steps=8, max_steps=30, prefixes=PREFIXES, se
                 steps.append({"op": "REPORT", "fe": fe, "afe": afe, "coll": "c1" if fam else "a1", "kind": kind, "names": draw(st.lists(st.sampled_from(ics_names if fam else vcf_names), max_size=3))})
             else:
                 steps.append({"op": "REPORT", "fe": fe, "afe": afe, "coll": draw(st.sampled_from(["c1", "c2", "b1"])), "kind": kind})
+        elif op == "RECREATE":
+            # delete a collection and create one again at the same URL (stale per-path caches)
+            slot = draw(st.sampled_from(["c1", "c1", "a1", "c2", "x1"]))
+            kind = {"c1": "mkcalendar", "c2": "ext-calendar", "a1": "ext-addressbook", "x1": "plain"}[slot]
+            steps.append({"op": "DELETE", "fe": fe, "afe": afe, "coll": slot, "name": None, "slash": draw(st.booleans())})
+            steps.append({"op": "MKCOL", "fe": draw(FE), "afe": afe, "coll": slot, "kind": kind, "props": [], "slash": draw(st.booleans())})
         elif op == "RESTART":
             steps.append({"op": "RESTART"})
     return {"config": cfg, "steps": steps}
